@@ -12,19 +12,23 @@ the second call cleans the printed result (the cleaning pass is the identity on 
 (`canonParts_reparsed`: `safelyUnquote_idem`, `host_idempotent`, `canonQuery_idempotent`,
 the path facts `PathIdem` proved in `Lemmas/Normpath.lean`).
 
-Proved for the unquoted mode (`quoted = False`, the default) and every `strip_fragment`.
-`FullIdempotent` is the statement without side conditions; it is FALSE for the model and for
-the implementation (`idempotent_fails_outside`, known finding KF-C02-2/3), the side
-conditions of `canonicalize_idempotent_partial` name the region where it holds:
+Proved for the unquoted mode (`quoted = False`, the default) and every `strip_fragment`, for
+every string the function accepts (`hs : canonicalizeUrl … u = some s`).  `FullIdempotent` is
+the statement without side conditions; `canonicalize_idempotent_partial` has two:
 
 * the default protocol is 1–64 ASCII letters (`https`, `http`, `ftp://` …): `PROTOCOL_RE`
   recognises it again on the second call;
-* the bracket conditions of `canonicalize_reparse_partial`;
-* no `%` in the host (the host is lower-cased but the cleaning pass upper-cases escapes);
-* an authority is printed: the netloc is not empty or the scheme is one of `uses_netloc`
-  (`custom:///p` prints as `custom:/p`, which the second call reads as a scheme-less URL);
-* the printed result does not end with a white-space character (a host ending with U+00A0
-  and nothing after it: the second call strips it).
+* no `%` in the parsed host (`hpct`): the accessor lower-cases the host while the cleaning
+  pass upper-cases escapes, so the second call does not see the printed string but an
+  upper-cased one.  The implementation IS idempotent there (witnesses `http://a%ABb.com/`,
+  `http://[::1%7A]:80/` in the corpus of C02); the proof would need the idna decoder to be
+  insensitive to the case of hex digits after a `%` in a label, which `PunyLaws` does not say.
+
+The three former side conditions are gone with the defects they named: the bracket
+conditions (KF-C01-1/2 → FX-C01-ca9f3e6, FX-C01-feb1ed1, `Lemmas/BracketHost.lean`),
+"an authority is printed" (KF-C02-3 → FX-C02-f918741: `scheme://` is always printed,
+`printSplit_normal`), "the result does not end with white space" (KF-C02-2 →
+FX-C02-16f182c: `printed_last`).
 
 The quoted mode, and idempotence across spellings, stay with the oracle (`UNPROVED`).
 -/
@@ -51,93 +55,80 @@ theorem defaultProtocolOk_of_letters {dp : Str} (h : ProtoLetters dp) : DefaultP
 theorem protoLetters_https : ProtoLetters "https".toList := by
   refine ⟨by decide +kernel, by decide +kernel, by decide +kernel⟩
 
-/-- idempotence of the whole function (unquoted mode), no side condition -/
+/-- idempotence of the whole function (unquoted mode), no side condition but the decoder
+laws and a default protocol of letters -/
 def FullIdempotent : Prop :=
   ∀ (puny : Str → Str), PunyLaws puny → PunyClean puny → ∀ (dp : Str) (sf : Bool), ProtoLetters dp →
     ∀ (u s : Str), canonicalizeUrl puny ⟨dp, false, sf⟩ u = some s →
       canonicalizeUrl puny ⟨dp, false, sf⟩ s = some s
 
 /-- **C02 (i), whole function, from the path facts**: `canonicalize(canonicalize(u)) =
-canonicalize(u)` for every input string `u` in the region described in the header -/
+canonicalize(u)` for every input string `u` the function accepts whose host holds no `%` -/
 theorem canonicalize_idempotent_of_pathIdem (hpath : PathIdem)
     (puny : Str → Str) (hpl : PunyLaws puny) (hpc : PunyClean puny)
-    (dp : Str) (sf : Bool) (hdp : ProtoLetters dp) (u : Str) (p : Parsed)
-    (hp : parseUrl (Canonicalize.cleanUrl u dp) = some p)
-    (hnb : NoOddBracket p)
-    (hbr : ':' ∈ strOf (canonComps puny false sf p).host →
-      bracketedHostOk (strOf (canonComps puny false sf p).host) = true)
-    (hpct : ∀ h0, p.hostname = some h0 → '%' ∉ h0)
-    (hnl : (canonParts puny false sf p).netloc ≠ [] ∨
-      inTable usesNetloc20 (canonParts puny false sf p).scheme = true)
-    (s : Str) (hs : canonicalizeUrl puny ⟨dp, false, sf⟩ u = some s)
-    (hlast : ∀ c, s.getLast? = some c → isSpace c = false) :
+    (dp : Str) (sf : Bool) (hdp : ProtoLetters dp) (u s : Str)
+    (hs : canonicalizeUrl puny ⟨dp, false, sf⟩ u = some s)
+    (hpct : ∀ p, parseUrl (Canonicalize.cleanUrl u dp) = some p → ∀ h0, p.hostname = some h0 → '%' ∉ h0) :
     canonicalizeUrl puny ⟨dp, false, sf⟩ s = some s := by
+  obtain ⟨p, ⟨hp, hui⟩, hs'⟩ := (canonicalize_accepts_iff puny ⟨dp, false, sf⟩ u s).1 hs
+  simp only at hp hs'
   obtain ⟨S, rest, hcl, hletters⟩ := cleanUrl_cleaned u dp (defaultProtocolOk_of_letters hdp)
   have hS := hletters hdp.2.1 hdp.2.2
   have hf := fromParse hcl hp
   have hup := upFacts hcl (upperEsc_cleanUrl u dp hdp.2.1) hp
-  have hs' : s = urlunsplit (canonParts puny false sf p) := by
-    simp only [canonicalizeUrl, canonicalizeSplit, hp, Option.map_some, Option.some.injEq] at hs
-    exact hs.symm
+  have hbr := BracketHost.hbr_holds hpc false sf hf hui
   subst hs'
-  have hok := netlocOk_new hpc false sf hf hnb hbr
-  have hwf := CanonRoundTrip.canonParts_wf hpc false sf hf hok
-  have hclean := cleanUrl_printed_id hpc sf hf hup hpath hS hpct hwf hnl hlast dp
-  have hparse := parseUrl_printed hpc false sf hf hnb hbr
-  simp only [canonicalizeUrl, canonicalizeSplit, hclean, hparse, Option.map_some,
-    Option.some.injEq]
-  exact canonParts_reparsed hpl sf p hpath hf.split.path_abs
+  have hclean := cleanUrl_printed_id hpc sf hf hup hpath hS (hpct p hp) hui hbr dp
+  have hparse := parseUrl_printed hpc false sf hf hui hbr
+  have hui2 : userinfoBrackets (reparsedOf puny false sf p).netloc = false :=
+    userinfoBrackets_printed hpc false sf hf hui hbr
+  apply (canonicalize_accepts_iff puny ⟨dp, false, sf⟩ _ _).2
+  refine ⟨reparsedOf puny false sf p, ⟨?_, hui2⟩, ?_⟩
+  · simp only [hclean, hparse]
+  · exact (canonParts_reparsed hpl hpc sf hf hui hbr hpath).symm
 
-/-- **C02 (i), whole function** (`_partial`: the region of the header), the path facts
-discharged by `Lemmas/Normpath.lean` -/
+/-- **C02 (i), whole function** (`_partial`: the host holds no `%`), the path facts discharged
+by `Lemmas/Normpath.lean`.  No hypothesis on brackets, on the scheme or on white space is
+left (FX-C01-ca9f3e6, FX-C01-feb1ed1, FX-C02-f918741, FX-C02-16f182c). -/
 theorem canonicalize_idempotent_partial
     (puny : Str → Str) (hpl : PunyLaws puny) (hpc : PunyClean puny)
-    (dp : Str) (sf : Bool) (hdp : ProtoLetters dp) (u : Str) (p : Parsed)
-    (hp : parseUrl (Canonicalize.cleanUrl u dp) = some p)
-    (hnb : NoOddBracket p)
-    (hbr : ':' ∈ strOf (canonComps puny false sf p).host →
-      bracketedHostOk (strOf (canonComps puny false sf p).host) = true)
-    (hpct : ∀ h0, p.hostname = some h0 → '%' ∉ h0)
-    (hnl : (canonParts puny false sf p).netloc ≠ [] ∨
-      inTable usesNetloc20 (canonParts puny false sf p).scheme = true)
-    (s : Str) (hs : canonicalizeUrl puny ⟨dp, false, sf⟩ u = some s)
-    (hlast : ∀ c, s.getLast? = some c → isSpace c = false) :
+    (dp : Str) (sf : Bool) (hdp : ProtoLetters dp) (u s : Str)
+    (hs : canonicalizeUrl puny ⟨dp, false, sf⟩ u = some s)
+    (hpct : ∀ p, parseUrl (Canonicalize.cleanUrl u dp) = some p → ∀ h0, p.hostname = some h0 → '%' ∉ h0) :
     canonicalizeUrl puny ⟨dp, false, sf⟩ s = some s :=
-  canonicalize_idempotent_of_pathIdem pathIdem puny hpl hpc dp sf hdp u p hp hnb hbr hpct hnl s hs
-    hlast
+  canonicalize_idempotent_of_pathIdem pathIdem puny hpl hpc dp sf hdp u s hs hpct
 
-/-- the usual case, with conditions on the input only: the parsed netloc holds no bracket
-and no `%` (registered names, IPv4 hosts, any userinfo without escapes … in the netloc) -/
+/-- the usual case, with a condition on the input string only: no `%` before the path (so
+none in the host; userinfo escapes are then excluded too) -/
 theorem canonicalize_idempotent
     (puny : Str → Str) (hpl : PunyLaws puny) (hpc : PunyClean puny)
-    (dp : Str) (sf : Bool) (hdp : ProtoLetters dp) (u : Str) (p : Parsed)
-    (hp : parseUrl (Canonicalize.cleanUrl u dp) = some p)
-    (hb : '[' ∉ p.netloc ∧ ']' ∉ p.netloc) (hpct : ∀ h0, p.hostname = some h0 → '%' ∉ h0)
-    (hnl : (canonParts puny false sf p).netloc ≠ [] ∨
-      inTable usesNetloc20 (canonParts puny false sf p).scheme = true)
-    (s : Str) (hs : canonicalizeUrl puny ⟨dp, false, sf⟩ u = some s)
-    (hlast : ∀ c, s.getLast? = some c → isSpace c = false) :
+    (dp : Str) (sf : Bool) (hdp : ProtoLetters dp) (u s : Str)
+    (hs : canonicalizeUrl puny ⟨dp, false, sf⟩ u = some s)
+    (hpct : ∀ p, parseUrl (Canonicalize.cleanUrl u dp) = some p → '%' ∉ p.netloc) :
     canonicalizeUrl puny ⟨dp, false, sf⟩ s = some s := by
+  apply canonicalize_idempotent_partial puny hpl hpc dp sf hdp u s hs
+  intro p hp h0 hh hm
   obtain ⟨S, rest, hcl, _⟩ := cleanUrl_cleaned u dp (defaultProtocolOk_of_letters hdp)
-  obtain ⟨hnb, hcol⟩ := side_conditions_of_no_bracket hpc false sf (fromParse hcl hp) hb
-  exact canonicalize_idempotent_partial puny hpl hpc dp sf hdp u p hp hnb
-    (fun h => absurd h hcol) hpct hnl s hs hlast
+  have hf := fromParse hcl hp
+  have hl := ((netlocFacts p.netloc).host_lower h0 (by rw [← hf.host]; exact hh)).1
+  exact hl.not_mem (hpct p hp) (by decide) hm
 
-/-- the excluded region really fails, on the model as on the implementation: a host ending
-with a no-break space and nothing printed after it (`'http://a.com\xa0/'`), and an unknown
-scheme with an empty authority (`'custom:///p'`) -/
-theorem idempotent_fails_outside : ¬ FullIdempotent := by
-  intro h
-  have h1 := h id punyLaws_id punyClean_id "https".toList false protoLetters_https
-    "custom:///p".toList "custom:/p".toList (by decide +kernel)
-  revert h1
-  decide +kernel
-
+/-- the former witnesses of KF-C02-2 / KF-C02-3 (and of the bracket findings) behave: a host
+ending with a no-break space keeps its slash, also once the default port is dropped; an
+unknown scheme with an empty authority keeps `//`; an IPvFuture literal keeps its brackets;
+each result is its own canonical form -/
 example :
     canonicalizeUrl id ⟨"https".toList, false, false⟩ ['h','t','t','p',':','/','/','a','.','c','o','m',Char.ofNat 0xa0,'/'] =
-      some ['h','t','t','p',':','/','/','a','.','c','o','m',Char.ofNat 0xa0] ∧
+      some ['h','t','t','p',':','/','/','a','.','c','o','m',Char.ofNat 0xa0,'/'] ∧
+    canonicalizeUrl id ⟨"https".toList, false, false⟩ ['h','t','t','p',':','/','/','a','.','c','o','m',Char.ofNat 0xa0,':','8','0','?','#'] =
+      some ['h','t','t','p',':','/','/','a','.','c','o','m',Char.ofNat 0xa0,'/'] ∧
     canonicalizeUrl id ⟨"https".toList, false, false⟩ ['h','t','t','p',':','/','/','a','.','c','o','m',Char.ofNat 0xa0] =
-      some "http://a.com".toList := by
+      some "http://a.com".toList ∧
+    canonicalizeUrl id ⟨"https".toList, false, false⟩ "custom:///p".toList = some "custom:///p".toList ∧
+    canonicalizeUrl id ⟨"https".toList, false, false⟩ "zz://?q".toList = some "zz:///?q".toList ∧
+    canonicalizeUrl id ⟨"https".toList, false, false⟩ "zz:///?q".toList = some "zz:///?q".toList ∧
+    canonicalizeUrl id ⟨"https".toList, false, false⟩ "custom://".toList = some "custom://".toList ∧
+    canonicalizeUrl id ⟨"https".toList, false, false⟩ "http://[v1.[]".toList = some "http://[v1.[]".toList := by
   decide +kernel
 
 /-- non-vacuity: a URL with userinfo, upper-case host, default port, dot segments, escapes to
@@ -161,37 +152,19 @@ theorem pDemo_parse :
     parseUrl (Canonicalize.cleanUrl "HTTP://%41:p%40@[2001:DB8::1]:8080/a/../b?k=%26#f".toList "https".toList) =
       some pDemo := by decide +kernel
 
-theorem pDemo_noOddBracket : NoOddBracket pDemo where
-  user := fun u hu => by
-    have : u = "%41".toList := by simpa [pDemo] using hu.symm
-    subst this; decide +kernel
-  pass := fun u hu => by
-    have : u = "p%40".toList := by simpa [pDemo] using hu.symm
-    subst this; decide +kernel
-  host := fun u hu => by
-    have : u = "2001:db8::1".toList := by simpa [pDemo] using hu.symm
-    subst this; decide +kernel
-
-/-- non-vacuity: all hypotheses of `canonicalize_idempotent_partial` (hence of
-`canonicalize_reparse_partial`) hold together on an IPv6 URL with userinfo, port, dot segment,
-query and fragment -/
+/-- non-vacuity: all hypotheses of `canonicalize_idempotent_partial` hold together on an IPv6
+URL with userinfo, port, dot segment, query and fragment -/
 example :
     canonicalizeUrl id ⟨"https".toList, false, false⟩
         "http://A:p%40@[2001:db8::1]:8080/b?k=%26#f".toList =
       some "http://A:p%40@[2001:db8::1]:8080/b?k=%26#f".toList :=
   canonicalize_idempotent_partial id punyLaws_id punyClean_id "https".toList false protoLetters_https
-    "HTTP://%41:p%40@[2001:DB8::1]:8080/a/../b?k=%26#f".toList pDemo pDemo_parse pDemo_noOddBracket
-    (fun _ => by decide +kernel)
-    (fun h0 hh => by
-      have : h0 = "2001:db8::1".toList := by simpa [pDemo] using hh.symm
-      subst this; decide +kernel)
-    (Or.inl (by decide +kernel))
+    "HTTP://%41:p%40@[2001:DB8::1]:8080/a/../b?k=%26#f".toList
     "http://A:p%40@[2001:db8::1]:8080/b?k=%26#f".toList (by decide +kernel)
-    (fun c hc => by
-      have : c = 'f' := by
-        have h : ("http://A:p%40@[2001:db8::1]:8080/b?k=%26#f".toList).getLast? = some 'f' := by
-          decide +kernel
-        rw [h] at hc; exact (Option.some.inj hc).symm
+    (fun p hp h0 hh => by
+      rw [pDemo_parse] at hp
+      cases hp
+      have : h0 = "2001:db8::1".toList := by simpa [pDemo] using hh.symm
       subst this; decide +kernel)
 
 end Ural.Props.C02
